@@ -236,6 +236,9 @@ def main(argv=None):
         crashes.append(("driver", "zero obligations generated"))
         code = 3
 
+    if os.environ.get("PYVC_VERBOSE"):
+        for r in sorted(results, key=lambda r: -r.get("time_s", 0))[:25]:
+            print(f"  time {r.get('time_s'):8.2f}s paths={r.get('paths')} obl={len(r['obligations'])} {r['contract']}[{r['case']}]")
     for k, sig in known_hits:
         print(f"KNOWN-FINDING: property={pid} {k['what']}  [{sig}]")
     seen_v = set()
